@@ -313,7 +313,7 @@ func genTextStep(r *simrt.Rand, nfonts int) Step {
 }
 
 func genFontStep(r *simrt.Rand, nfonts int) Step {
-	return Step{Op: []string{"loadfont", "loadfont", "loadfontfile", "fontfamily", "systemfont"}[r.Intn(5)], Font: r.Intn(nfonts), Style: r.Intn(4)}
+	return Step{Op: []string{"loadfont", "loadfont", "loadfontfile", "fontfamily", "systemfont", "loadmissing"}[r.Intn(6)], Font: r.Intn(nfonts), Style: r.Intn(4)}
 }
 
 func genColor(r *simrt.Rand) [4]uint8 {
